@@ -176,6 +176,8 @@ func c17SortedKeys(m map[string][]string) []string {
 
 // c17Seen is what one request looked like at the origin, before any parsing.
 type c17Seen struct {
+	Path    string
+	Status  int // what the origin answered
 	Method  string
 	Proto   string
 	Header  http.Header
@@ -191,7 +193,8 @@ type c17Origin struct {
 	base string // scheme://127.0.0.1:port
 	stop func()
 	// download: body served for GET /dl?id=…
-	dl map[string][]byte
+	dl    map[string][]byte
+	flaky map[string]int
 }
 
 func (o *c17Origin) handler(w http.ResponseWriter, r *http.Request) {
@@ -222,11 +225,36 @@ func (o *c17Origin) handler(w http.ResponseWriter, r *http.Request) {
 		}
 	}
 	body, err := io.ReadAll(r.Body)
+	status := 200
+	switch {
+	case strings.HasPrefix(r.URL.Path, "/digest"):
+		// asks for digest authentication first
+		if !strings.HasPrefix(r.Header.Get("Authorization"), "Digest ") {
+			status = 401
+			w.Header().Set("WWW-Authenticate", `Digest realm="c17", nonce="dcd98b7102dd2f0e8b11d0f600bfb0c093", qop="auth", algorithm=MD5, opaque="5ccc069c403ebaf9f0171e9517f40e41"`)
+		}
+	case strings.HasPrefix(r.URL.Path, "/flaky"):
+		// the first attempt of every id is answered 503
+		id := r.URL.Query().Get("id")
+		o.mu.Lock()
+		if o.flaky == nil {
+			o.flaky = map[string]int{}
+		}
+		o.flaky[id]++
+		if o.flaky[id] == 1 {
+			status = 503
+		}
+		o.mu.Unlock()
+	case strings.HasPrefix(r.URL.Path, "/redir"):
+		// 307 / 308: the client must repeat method and body at the new location
+		status, _ = strconv.Atoi(strings.TrimPrefix(r.URL.Path, "/redir"))
+		w.Header().Set("Location", "/final?"+r.URL.RawQuery)
+	}
 	o.mu.Lock()
-	o.seen = append(o.seen, c17Seen{Method: r.Method, Proto: r.Proto, Header: r.Header.Clone(), CL: r.ContentLength,
+	o.seen = append(o.seen, c17Seen{Path: r.URL.Path, Status: status, Method: r.Method, Proto: r.Proto, Header: r.Header.Clone(), CL: r.ContentLength,
 		TE: append([]string(nil), r.TransferEncoding...), Body: body, BodyErr: err})
 	o.mu.Unlock()
-	w.WriteHeader(200)
+	w.WriteHeader(status)
 }
 
 func c17Itoa64(n int64) string {
